@@ -629,7 +629,7 @@ func ParseSearchQueryPlaceholdersSettings(statement *pg_query.ParseResult, schem
 	placeHolderSettings := make(map[int]config.ColumnEncryptionSetting)
 	for _, whereExpr := range whereExprs {
 		expr := whereExpr.GetAExpr()
-		if expr == nil {
+		if expr == nil || !isComparisonKind(expr) {
 			continue
 		}
 
